@@ -1076,18 +1076,39 @@ fn exec_op(w: &mut World, t: &[&str], at: usize, co: &mut CaseOut) -> Option<(St
                     let parameters = channel_parameters.as_counterparty_broadcastable();
                     let keys = chan.make_counterparty_tx_keys(&point);
                     let htlcs = Channel::htlcs_info2_to_oic(&o2, &r2);
+                    // as a node does it: the transaction and its witness scripts are built from the HTLCs that get an
+                    // output (an HTLC below the trim threshold of its direction has none; its value goes to the fee), the
+                    // HTLC lists are handed over in full
+                    let features = chan.setup.features();
+                    let lim = |w: u64| 330 + FEERATE as u64 * w / 1000;
+                    let (lo, lr) = (
+                        lim(lightning_signer::lightning::ln::chan_utils::htlc_timeout_tx_weight(&features)),
+                        lim(lightning_signer::lightning::ln::chan_utils::htlc_success_tx_weight(&features)),
+                    );
+                    let with_output: Vec<_> = htlcs
+                        .iter()
+                        .filter(|h| h.amount_msat / 1000 >= if h.offered { lo } else { lr })
+                        .cloned()
+                        .collect();
+                    let ctx = chan.make_counterparty_commitment_tx_with_keys(
+                        keys.clone(),
+                        n,
+                        FEERATE,
+                        to_holder,
+                        to_cp,
+                        with_output.clone(),
+                    );
                     let scripts = build_tx_scripts(
                         &keys,
                         to_cp,
                         to_holder,
-                        &htlcs,
+                        &with_output,
                         &parameters,
                         &chan.keys.pubkeys().funding_pubkey,
                         &cp_funding,
                     )
                     .expect("scripts");
                     let witscripts: Vec<Vec<u8>> = scripts.iter().map(|s| s.as_bytes().to_vec()).collect();
-                    let ctx = chan.make_counterparty_commitment_tx_with_keys(keys, n, FEERATE, to_holder, to_cp, htlcs);
                     let tx = ctx.trust().built_transaction().transaction.clone();
                     chan.sign_counterparty_commitment_tx(&tx, &witscripts, &point, n, FEERATE, o2.clone(), r2.clone())
                         .map(|_| ())
